@@ -255,3 +255,7 @@ def run(chk, repo):
                bool(cs) and not bad,
                f"{bad or 'call not found'}: the sequence of an additional (fusion acceptor) transcript is cut from the chromosome of another transcript; for an "
                "inter-chromosomal fusion the acceptor part of the fused transcript is unrelated sequence", key=f"{gq}::own-chrom::{nm}", fn=gd.qual)
+    # ------------------------------------------------------------------ shared: option plumbing by name
+    from rules.shared import optname
+    chk.clauses.append('C15.i (shared R-THREAD) an option value bound to a name that is itself a CLI option carries that very option')
+    optname(chk, repo, 'C15.i', ['cli.parse_star_fusion', 'cli.parse_arriba', 'cli.parse_fusion_catcher'], floor=0)
